@@ -636,7 +636,17 @@ class ListenerRequestHandler(BaseHTTPRequestHandler):
         # Content-Range, Expires, If-Range, Range.
 
         # Start processing the request
-        content_len = int(self.headers.get('Content-Length', 0))
+        content_length = self.headers.get('Content-Length', '0')
+        try:
+            content_len = int(content_length)
+            if content_len < 0:
+                raise ValueError("negative")
+        except ValueError:
+            self.send_http_error(
+                400, 'request-not-valid',
+                _format("Invalid Content-Length header value: {0}",
+                        content_length))
+            return
         body = self.rfile.read(content_len)
 
         try:
